@@ -68,7 +68,10 @@ def reads_for(rng, d, names, sweep):
               '/traits?associated=%s' % rng.choice(['true', 'false',
                                                     'TRUE', 'maybe']),
               '/traits?name=startswith:%s' % rng.choice(
-                  ['CUSTOM_', 'CUSTOM_T', 'HW_CPU_X86_A', 'MISC', '']),
+                  ['CUSTOM_', 'CUSTOM_T', 'HW_CPU_X86_A', 'MISC', '',
+                   # characters that mean something to SQL LIKE
+                   'CUSTOM_T_', 'CUSTOM%25', 'HW_CPU_X86_AV_', '_', '%25',
+                   'CUSTOM_UNUSE_']),
               '/traits?name=in:%s' % ','.join(rng.sample(
                   ['CUSTOM_T1', 'CUSTOM_T2', 'CUSTOM_T3', 'HW_CPU_X86_AVX',
                    'CUSTOM_NOPE'], 2)),
